@@ -182,6 +182,19 @@ CHECKS = {
         note="messages counted on the simulated links; reply lines other than ok are acks or ignored session lines",
         technique="TLA+ reference monitor + TLC trace validation of real multi-node runs (message budget)",
         design="DESIGN.md §5 C14"),
+    "C07": dict(
+        level="model_checking",
+        text="The real election code (start_election wait loops, election_eval, set-primary, join / leave, "
+             "supervisor) runs in the cluster simulator with yield hooks in the wait loops: 2- and 3-node "
+             "clusters, every assignment of start times, start-up through mutual join requests + the initial "
+             "election, then forced elections, death of the primary / a secondary, two simultaneous elections; "
+             "FIFO and seeded random delivery orders with timer ticks only when nothing is deliverable; TLC "
+             "validates each trace against Trace_Cluster group ELECT (termination within the step budget, one "
+             "primary = the longest-running live node, all others secondary, every member map names it).",
+        note="simulated links; NUN_ELECTION_TIMEOUT=10 ms; nodes start together; seeded sampling of schedules, "
+             "no exhaustive exploration of the election protocol",
+        technique="TLA+ reference monitor + TLC trace validation of real election runs under a controlled scheduler",
+        design="DESIGN.md §5 C07"),
 }
 
 NOT_YET = "check not built yet (build in progress; see DESIGN.md §8 build order)"
